@@ -101,8 +101,8 @@ type Rec struct {
 	NoRdata bool
 }
 
-func f(k Kind, g string) Field                { return Field{Kind: k, Go: g} }
-func lenf(k Kind, g, of string) Field         { return Field{Kind: k, Go: g, LenOf: of} }
+func f(k Kind, g string) Field                    { return Field{Kind: k, Go: g} }
+func lenf(k Kind, g, of string) Field             { return Field{Kind: k, Go: g, LenOf: of} }
 func lay(t uint16, n string, fs ...Field) *Layout { return &Layout{Type: t, Name: n, Fields: fs} }
 
 func one(t uint16, n string, k Kind, g string) *Layout { return lay(t, n, f(k, g)) }
@@ -404,12 +404,12 @@ type Question struct {
 // Msg is a model message. Bits is the 16-bit flags word as sent on the wire (QR, opcode, AA, TC,
 // RD, RA, Z, AD, CD and the low 4 RCODE bits).
 type Msg struct {
-	ID     uint16
-	Bits   uint16
-	Q      []Question
-	An     []*Rec
-	Ns     []*Rec
-	Ar     []*Rec
+	ID   uint16
+	Bits uint16
+	Q    []Question
+	An   []*Rec
+	Ns   []*Rec
+	Ar   []*Rec
 }
 
 // Wire encodes the message uncompressed.
